@@ -107,17 +107,24 @@ def loop_shape(ctx, py: PyRepo):
     ctx.ob('publish-loop', 'declared-lists-append-only', not bad, '; '.join(bad), py.where('proof', ci.node))
 
 
+PATTERN_CALLS = ('evar', 'svar', 'symbol', 'metavar', 'implies', 'app', 'exists', 'mu', 'esubst', 'ssubst', 'instantiate_pattern')
+
+
 def optimisers_transparent(ctx, py: PyRepo):
     tr = py.cls('InterpreterTransformer')
     for ci in py.subclasses(tr):
         for meth in MAY_PUBLISH:
             ctx.ob('optimiser-transparent', f'{ci.name}.{meth}', meth not in ci.methods,
                    f'{ci.name} overrides {meth}: an optimiser must not change what is published', py.where(ci.module, ci.methods.get(meth) or ci.node))
-    for meth in MAY_PUBLISH:
+    # the calls that build and publish patterns: an optimiser stack writes the same theory and claims only if the transformer base
+    # forwards each of them to the SAME method of the wrapped interpreter, once, with the same arguments
+    for meth in list(MAY_PUBLISH) + [m for m in PATTERN_CALLS if m not in MAY_PUBLISH]:
         mf = PM.level_facts(py, tr, meth)
         ok = mf is not None and all(len(rec['subcalls']) == 1 and rec['subcalls'][0][0] == meth
                                     and rec['subcalls'][0][1] == tuple(('param', p) for p in mf.params) for rec in mf.paths)
-        ctx.ob('optimiser-transparent', f'InterpreterTransformer.{meth}', ok, f'{meth} must forward exactly once with the same argument',
+        ctx.ob('optimiser-transparent', f'InterpreterTransformer.{meth}', ok,
+               f'{meth} must forward exactly once, to {meth} of the wrapped interpreter, with the same arguments'
+               + ('' if mf is None else f' (it calls {[rec["subcalls"] and rec["subcalls"][0][0] for rec in mf.paths]})'),
                py.where(tr.module, tr.methods.get(meth) or tr.node))
     # MemoizingInterpreter.pattern returns its argument or the value of super().pattern(argument)
     ci = py.cls('MemoizingInterpreter')
